@@ -560,7 +560,7 @@ Definition imp_globals_w (l : list wimport) : list wglobalty :=
   flat_map (fun i => match wi_kind i with WI_Global t => [t] | _ => [] end) l.
 Definition sec_globals (sec : wsec) : list (wglobalty * option mconst) :=
   match sec with
-  | S_Globals l => map (fun gc => (fst gc, Some (cst0 (snd gc)))) l
+  | S_Globals l => map (fun gc_sweep => (fst gc_sweep, Some (cst0 (snd gc_sweep)))) l
   | S_Imports l => map (fun g => (g, None)) (imp_globals_w l)
   | _ => [] end.
 Definition exp_of (e : wexport) : mexport := {| ex_name := we_name e; ex_kind := we_kind e; ex_item := we_index e |}.
@@ -577,7 +577,7 @@ Qed.
 Lemma parse_globals_spec : forall l m ids m' ids',
   ii_globals ids = iota (length (items (m_globals m))) -> (exists n, ii_funcs ids = iota n) ->
   parse_globals m ids l = POk (m', ids') ->
-  K_globals m' = K_globals m ++ map (fun gc => (fst gc, Some (cst0 (snd gc)))) l.
+  K_globals m' = K_globals m ++ map (fun gc_sweep => (fst gc_sweep, Some (cst0 (snd gc_sweep)))) l.
 Proof.
   induction l as [|[g c] r IH]; intros m ids m' ids' Hg Hf E; cbn [parse_globals] in E.
   - inversion E; subst. rewrite app_nil_r. reflexivity.
@@ -765,7 +765,7 @@ Definition globals_of (sec : wsec) : list (wglobalty * wconst) := match sec with
 Definition defined (k : wglobalty * option mconst) : list (wglobalty * mconst) :=
   match snd k with Some c => [(fst k, c)] | None => [] end.
 Lemma sec_globals_of : forall w,
-  flat_map defined (flat_map sec_globals w) = map (fun gc => (fst gc, cst0 (snd gc))) (flat_map globals_of w).
+  flat_map defined (flat_map sec_globals w) = map (fun gc_sweep => (fst gc_sweep, cst0 (snd gc_sweep))) (flat_map globals_of w).
 Proof.
   induction w as [|x r IH]; [reflexivity|]. cbn [flat_map]. rewrite flat_map_app, map_app, IH. f_equal.
   destruct x; try reflexivity; cbn [sec_globals globals_of].
